@@ -183,6 +183,23 @@ static void do_apply(const jv *v)
         if (al_bad_free || !cm_intact(why, sizeof(why))) viol("C07 C16", "patching a document with constant keys / string references released or modified borrowed memory");
         if (al_live != 0) viol("C07 C16", "%ld block(s) leaked by patching a document with constant keys / string references", al_live);
     }
+    /* the same document as a detached member that still carries its name (owned, or constant as cJSON_AddItemToObjectCS leaves it): the name is
+     * the caller's business, the value and the ownership rules are not */
+    if (cls[0] != 'O') {
+        cJSON *wrap; int cst = (int)(vd_salt() & 1); char *nm;
+        cm_case_begin(); doc = vb_build(jv_at(v, 1)); patch = vb_build(jv_at(v, 2)); wrap = cJSON_CreateObject(); nm = cm_string("docname");
+        if (cst) cJSON_AddItemToObjectCS(wrap, nm, doc); else cJSON_AddItemToObject(wrap, nm, doc);
+        cJSON_AddItemToObject(wrap, "sibling", cJSON_CreateNumber(1));
+        doc = cJSON_DetachItemViaPointer(wrap, doc); cJSON_Delete(wrap);
+        al_window(0); st = cJSONUtils_ApplyPatchesCaseSensitive(doc, patch);
+        if (cls[0] == 'S' && !(st != 0 && has_copy_move_to_root(jv_at(v, 2)))) {
+            if (st != 0 || !sem_equal(jv_at(v, 4), doc)) viol("C16", "document that is a detached member with a%s name: status %d or result differs from RFC 6902", cst ? " constant" : "n owned", st);
+        } else if (cls[0] == 'F' && st == 0) viol("C16", "document that is a detached member with a name: status 0 for a patch whose RFC 6902 evaluation fails");
+        if ((doc->type & 0xFF) != cJSON_Invalid && !still_editable(doc, why, sizeof(why))) viol("C16 C19", "named document after patching: %s", why);
+        cJSON_Delete(doc); cJSON_Delete(patch);
+        if (al_bad_free || !cm_intact(why, sizeof(why))) viol("C07 C16", "patching a document that carries a%s name released or modified memory the library does not own", cst ? " constant" : "n owned");
+        if (al_live != 0) viol("C07 C16", "%ld block(s) leaked by patching a document that carries a%s name", al_live, cst ? " constant" : "n owned");
+    }
     by[2]++; by[3 + (cls[0] == 'S' ? 0 : cls[0] == 'F' ? 1 : 2)]++;
 }
 static void do_merge(const jv *v)
@@ -483,12 +500,76 @@ static void do_keyquery(const jv *v)
 }
 
 int vd_utils_main(int argc, char **argv);
+/* ------------------------------------------------------------------------------------------------------
+ * Documents as deep as the parser accepts (CJSON_NESTING_LIMIT levels of containers around one number).  Pointer.tla / Patch.tla recurse on
+ * the value without any bound, so at every depth: PointerTo gives "/0" or "/a" per level and Resolve brings it back (C15); equal documents
+ * give an empty patch / no merge patch, a changed leaf gives a patch that transforms one into the other (C17, C18); test + replace on the
+ * leaf succeeds (C16).  Built with the API, compared by printing (cJSON_Compare is exponential on nested objects). */
+static long deep_util_cases;
+static cJSON *deep_doc(int depth, int shape, double leaf, cJSON **inner)
+{
+    cJSON *root = NULL, *cur = NULL, *n; int d;
+    for (d = 0; d < depth; d++) {
+        int obj = shape == 1 || (shape == 2 && (d & 1));
+        n = obj ? cJSON_CreateObject() : cJSON_CreateArray();
+        if (!root) root = n; else if ((cur->type & 0xFF) == cJSON_Object) cJSON_AddItemToObject(cur, "a", n); else cJSON_AddItemToArray(cur, n);
+        cur = n;
+    }
+    n = cJSON_CreateNumber(leaf); *inner = n;
+    if ((cur->type & 0xFF) == cJSON_Object) cJSON_AddItemToObject(cur, "a", n); else cJSON_AddItemToArray(cur, n);
+    return root;
+}
+static void deep_util_run(void)
+{
+#ifndef VD_LIMITS
+    static const int D[] = { 500, 999, 1000 }; size_t di; int shape;
+    for (di = 0; di < 3; di++) for (shape = 0; shape < 3; shape++) {
+        int depth = D[di], d; cJSON *in1, *in2, *in3, *a, *b, *c, *p, *mp; char *ptr, *exp, *ta, *tb, *tc; size_t n = 0; const char *what = shape == 0 ? "arrays" : shape == 1 ? "objects" : "arrays and objects";
+        al_case_begin(); VD.cases++; deep_util_cases++;
+        if (!VD_TRY()) { al_in_call = 0; viol("*", "utilities on a document nested %d deep (%s): memory fault", depth, what); continue; }
+        al_in_call = 1;
+        a = deep_doc(depth, shape, 1, &in1); b = deep_doc(depth, shape, 1, &in2); c = deep_doc(depth, shape, 2, &in3);
+        exp = (char*)malloc((size_t)depth * 2 + 3);
+        for (d = 0; d < depth; d++) { int obj = shape == 1 || (shape == 2 && (d & 1)); exp[n++] = '/'; exp[n++] = obj ? 'a' : '0'; } exp[n] = 0;
+        ptr = cJSONUtils_FindPointerFromObjectTo(a, in1);
+        if (!ptr || strcmp(ptr, exp)) viol("C15", "the pointer to the innermost value of a document nested %d deep (%s) is %s", depth, what, ptr ? "not the RFC 6901 pointer" : "NULL");
+        if (cJSONUtils_GetPointerCaseSensitive(a, exp) != in1) viol("C15", "the RFC 6901 pointer to the innermost value of a document nested %d deep (%s) does not resolve to it", depth, what);
+        cJSON_free(ptr);
+        p = cJSONUtils_GeneratePatchesCaseSensitive(a, b);
+        if (!p || !cJSON_IsArray(p) || p->child) viol("C17", "two equal documents nested %d deep (%s): the generated patch is %s", depth, what, p ? "not empty" : "NULL");
+        cJSON_Delete(p);
+        p = cJSONUtils_GeneratePatchesCaseSensitive(a, c); tc = cJSON_PrintUnformatted(c);
+        if (!p || cJSONUtils_ApplyPatchesCaseSensitive(a, p) != 0 || !(ta = cJSON_PrintUnformatted(a)) || strcmp(ta, tc)) { viol("C17 C16", "documents nested %d deep (%s) that differ in the innermost value: the generated patch does not transform one into the other", depth, what); ta = NULL; }
+        cJSON_free(ta); cJSON_Delete(p);
+        mp = cJSONUtils_GenerateMergePatchCaseSensitive(b, c);
+        if (!mp) viol("C18", "documents nested %d deep (%s) that differ in the innermost value: no merge patch is generated", depth, what);
+        else { cJSON *bb = cJSON_Duplicate(b, 1), *r = cJSONUtils_MergePatchCaseSensitive(bb, mp); tb = r ? cJSON_PrintUnformatted(r) : NULL;
+            if (!tb || strcmp(tb, tc)) viol("C18", "documents nested %d deep (%s): applying the generated merge patch does not give the target", depth, what);
+            cJSON_free(tb); cJSON_Delete(r); cJSON_Delete(mp); }
+        if (shape == 1) { mp = cJSONUtils_GenerateMergePatchCaseSensitive(c, c); if (mp) { viol("C18", "equal documents nested %d deep (objects): a merge patch is generated where none is needed", depth); cJSON_Delete(mp); } }
+        {   /* test + replace on the leaf of b */
+            cJSON *patch = cJSON_CreateArray(), *o1 = cJSON_CreateObject(), *o2 = cJSON_CreateObject(); int st;
+            cJSON_AddStringToObject(o1, "op", "test"); cJSON_AddStringToObject(o1, "path", exp); cJSON_AddNumberToObject(o1, "value", 1);
+            cJSON_AddStringToObject(o2, "op", "replace"); cJSON_AddStringToObject(o2, "path", exp); cJSON_AddNumberToObject(o2, "value", 2);
+            cJSON_AddItemToArray(patch, o1); cJSON_AddItemToArray(patch, o2);
+            st = cJSONUtils_ApplyPatchesCaseSensitive(b, patch); tb = cJSON_PrintUnformatted(b);
+            if (st != 0 || !tb || strcmp(tb, tc)) viol("C16", "test + replace of the innermost value of a document nested %d deep (%s): status %d or another result", depth, what, st);
+            cJSON_free(tb); cJSON_Delete(patch);
+        }
+        cJSON_free(tc); free(exp); cJSON_Delete(a); cJSON_Delete(b); cJSON_Delete(c);
+        al_in_call = 0;
+        if (al_live != 0 || al_bad_free) viol("C07 C15 C16 C17 C18", "utilities on a document nested %d deep (%s): %ld block(s) remain allocated, %ld invalid releases", depth, what, al_live, al_bad_free);
+        VD_END(); vd_tick();
+    }
+#endif
+}
 int vd_utils_main(int argc, char **argv)
 {
     char *line = NULL; size_t cap = 0; ssize_t len; const char *stats = NULL; int k; char extra[400]; cJSON_Hooks hooks;
     for (k = 0; k < argc; k++) { if (!strcmp(argv[k], "--stats") && k + 1 < argc) stats = argv[k + 1]; if (!strcmp(argv[k], "--record") && k + 1 < argc) recf = fopen(argv[k + 1], "w"); }
     hooks.malloc_fn = al_malloc; hooks.free_fn = al_free; cJSON_InitHooks(&hooks);
     vd_install_handlers();
+    deep_util_run();
     while ((len = getline(&line, &cap, stdin)) > 0 || (len < 0 && errno == EINTR && !feof(stdin) && (clearerr(stdin), 1))) {
         char *copy; jv *v; const char *kind;
         if (len <= 0) continue;
